@@ -6,8 +6,9 @@ import vlib
 from gen import intervals as G
 
 ID = "C19"
-PROPS = ["IsoVerif/Props/C19.lean", "IsoVerif/Props/C19Lists.lean", "IsoVerif/Props/C19Profiles.lean"]
-TARGETS = ["IsoVerif.Props.C19", "IsoVerif.Props.C19Lists", "IsoVerif.Props.C19Profiles"]
+PROPS = ["IsoVerif/Props/C19.lean", "IsoVerif/Props/C19Lists.lean", "IsoVerif/Props/C19Profiles.lean",
+         "IsoVerif/Props/C19Split.lean"]
+TARGETS = ["IsoVerif.Props.C19", "IsoVerif.Props.C19Lists", "IsoVerif.Props.C19Profiles", "IsoVerif.Props.C19Split"]
 GEN_DEPS = ["Prims"]
 LEVEL = "proof"
 RULE = ("exhaustive small universes (interval pairs over 0..6 x delta 0..4; sorted disjoint lists of <=3 intervals over "
